@@ -235,20 +235,36 @@ class InjectedFault(RuntimeError):
     pass
 
 
-def inject_fault(w1, at_call):
-    """One-shot exception in the `at_call`-th call of linear_solve (0 = initial Darcy solve)."""
-    state = {"n": 0, "fired": False}
-    orig = w1.linear_solve
+def inject_fault(w1, at_call, point="linear_solve"):
+    """One-shot exception in the `at_call`-th call (counted from 0) of an inner step of the solver:
+    the linear solve (call 0 = initial Darcy solve, outside the iteration), the mobility / face-weight
+    computation, the Anderson mixing or the evaluation of the cost.  Bound methods are wrapped on the
+    instance; no source hook."""
+    state = {"n": 0, "fired": False, "point": point}
 
-    def wrapped(*a, **k):
-        i = state["n"]
-        state["n"] += 1
-        if i == at_call and not state["fired"]:
-            state["fired"] = True
-            raise InjectedFault(f"injected failure of linear solve call {i}")
-        return orig(*a, **k)
+    def guard(orig):
+        def wrapped(*a, **k):
+            i = state["n"]
+            state["n"] += 1
+            if i == at_call and not state["fired"]:
+                state["fired"] = True
+                raise InjectedFault(f"injected failure of {point} call {i}")
+            return orig(*a, **k)
+        return wrapped
 
-    w1.linear_solve = wrapped
+    if point == "linear_solve":
+        w1.linear_solve = guard(w1.linear_solve)
+    elif point == "face_weight":
+        w1._compute_face_weight = guard(w1._compute_face_weight)
+    elif point == "dissipation":
+        w1.l1_dissipation = guard(w1.l1_dissipation)
+    elif point == "anderson":
+        if getattr(w1, "anderson", None) is None:
+            state["unavailable"] = True
+        else:
+            w1.anderson = guard(w1.anderson)
+    else:
+        raise ValueError(point)
     return state
 
 
